@@ -117,12 +117,13 @@ Record gstate := mkG {
   g_fin : nat -> option finished;
   g_ret : nat -> bool;                      (* the call has returned / raised to its caller *)
   g_run : nat -> option (list nat * list nat); (* run(): (all its wait() tasks, those not yet seen done) *)
-  g_runret : nat -> bool
+  g_runret : nat -> bool;
+  g_limit : nat -> option (option nat)      (* _restart_limit assigned after construction (None = still the configured one) *)
 }.
 
 Definition g_init : gstate :=
   mkG (fun _ => None) (fun _ => O) (fun _ => []) (fun _ => None) (fun _ => None) (fun _ => false)
-      (fun _ => None) (fun _ => false).
+      (fun _ => None) (fun _ => false) (fun _ => None).
 
 Definition updn {A} (f : nat -> A) (k : nat) (v : A) : nat -> A := fun x => if Nat.eqb x k then v else f x.
 Definition memn (x : nat) (l : list nat) : bool := existsb (Nat.eqb x) l.
@@ -143,7 +144,7 @@ Definition cancel_info (ti : option tinfo) : option tinfo :=
 Definition cancel_all (st : gstate) (l : list nat) : gstate :=
   mkG (fun t => if memn t l then cancel_info (g_tasks st t) else g_tasks st t)
       (fun t => if memn t l && negb (is_done st t) then S (g_creq st t) else g_creq st t)
-      (g_set st) (g_wait st) (g_fin st) (g_ret st) (g_run st) (g_runret st).
+      (g_set st) (g_wait st) (g_fin st) (g_ret st) (g_run st) (g_runret st) (g_limit st).
 
 Definition pending_of (st : gstate) (l : list nat) : list nat := filter (fun t => negb (is_done st t)) l.
 
@@ -203,6 +204,11 @@ Inductive gevent :=
         task.cancel() and `await task` with CancelledError suppressed -- i.e. stop() of the anonymous
         singleton set {tid} (no service owns it: pseudo-actor caw_actor w, whose _tasks is empty);
         its resumption and return are GWake w / GRet w *)
+| GCallCancelled (w : nat)
+     (* the task awaiting call w (a wait(), stop(), `async with` exit or cancel_and_await) is itself
+        cancelled / timed out while the call is blocked: the call RAISES CancelledError -- it does not
+        return -- whether or not the tasks are done; nothing else changes *)
+| GSetLimit (a : nat) (l : option nat)      (* `a._restart_limit = l` while the actor exists (running or not) *)
 | GWithDone (a : nat) (l : list nat).       (* `async with a:` finished; __aexit__ = stop(): every task of
                                               the set l at the exit of the body is done *)
 
@@ -210,13 +216,18 @@ Inductive gevent :=
    a subclass or the instance overrides it with) *)
 Record config := mkC { c_limit : nat -> option nat; c_delay : nat -> Z }.
 
-Definition set_tasks st f := mkG f (g_creq st) (g_set st) (g_wait st) (g_fin st) (g_ret st) (g_run st) (g_runret st).
-Definition set_set st f := mkG (g_tasks st) (g_creq st) f (g_wait st) (g_fin st) (g_ret st) (g_run st) (g_runret st).
-Definition set_wait st f := mkG (g_tasks st) (g_creq st) (g_set st) f (g_fin st) (g_ret st) (g_run st) (g_runret st).
-Definition set_fin st f := mkG (g_tasks st) (g_creq st) (g_set st) (g_wait st) f (g_ret st) (g_run st) (g_runret st).
-Definition set_ret st f := mkG (g_tasks st) (g_creq st) (g_set st) (g_wait st) (g_fin st) f (g_run st) (g_runret st).
-Definition set_run st f := mkG (g_tasks st) (g_creq st) (g_set st) (g_wait st) (g_fin st) (g_ret st) f (g_runret st).
-Definition set_runret st f := mkG (g_tasks st) (g_creq st) (g_set st) (g_wait st) (g_fin st) (g_ret st) (g_run st) f.
+Definition set_tasks st f := mkG f (g_creq st) (g_set st) (g_wait st) (g_fin st) (g_ret st) (g_run st) (g_runret st) (g_limit st).
+Definition set_set st f := mkG (g_tasks st) (g_creq st) f (g_wait st) (g_fin st) (g_ret st) (g_run st) (g_runret st) (g_limit st).
+Definition set_wait st f := mkG (g_tasks st) (g_creq st) (g_set st) f (g_fin st) (g_ret st) (g_run st) (g_runret st) (g_limit st).
+Definition set_fin st f := mkG (g_tasks st) (g_creq st) (g_set st) (g_wait st) f (g_ret st) (g_run st) (g_runret st) (g_limit st).
+Definition set_ret st f := mkG (g_tasks st) (g_creq st) (g_set st) (g_wait st) (g_fin st) f (g_run st) (g_runret st) (g_limit st).
+Definition set_run st f := mkG (g_tasks st) (g_creq st) (g_set st) (g_wait st) (g_fin st) (g_ret st) f (g_runret st) (g_limit st).
+Definition set_runret st f := mkG (g_tasks st) (g_creq st) (g_set st) (g_wait st) (g_fin st) (g_ret st) (g_run st) f (g_limit st).
+Definition set_limit st f := mkG (g_tasks st) (g_creq st) (g_set st) (g_wait st) (g_fin st) (g_ret st) (g_run st) (g_runret st) f.
+
+(* the restart limit in force: `self._restart_limit` is read at every failure *)
+Definition cur_limit (c : config) (st : gstate) (a : nat) : option nat :=
+  match g_limit st a with Some l => l | None => c_limit c a end.
 
 Definition caw_actor (w : nat) : nat := (1000 + w)%nat.   (* actors proper are numbered below 1000 *)
 
@@ -270,7 +281,7 @@ Definition gstep (c : config) (st : gstate) (t : Z) (e : gevent) : option gstate
       match le, g_tasks st tid with
       | LCancel, _ => None
       | _, Some (TLoop a s) =>
-          match lstep (c_limit c a) (c_delay c a) s t le with
+          match lstep (cur_limit c st a) (c_delay c a) s t le with
           | Some s' => Some (set_tasks st (updn (g_tasks st) tid (Some (TLoop a s'))))
           | None => None
           end
@@ -335,6 +346,12 @@ Definition gstep (c : config) (st : gstate) (t : Z) (e : gevent) : option gstate
         | _ => None
         end
       else None
+  | GCallCancelled w =>
+      match g_wait st w with
+      | Some _ => Some (set_wait st (updn (g_wait st) w None))
+      | None => None
+      end
+  | GSetLimit a l => Some (set_limit st (updn (g_limit st) a (Some l)))
   | GWithDone a l => if forallb (is_done st) l then Some st else None
   end.
 
